@@ -129,6 +129,7 @@ pub fn node(args: &Args) {
     use lightning_signer::bitcoin::{Amount, OutPoint, ScriptBuf, Sequence, Transaction, TxIn, TxOut, Txid, Witness};
     let mut rng = Rng::new(args.seed ^ 0x55aa);
     let mut n_restart = 0u64;
+    let (mut n_heartbeat, mut n_heartbeat_pruned) = (0u64, 0u64);
     let mut n_ok = 0u64;
     let mut n_ref = 0u64;
     let mut n_fee_ok = 0u64;
@@ -211,8 +212,35 @@ pub fn node(args: &Args) {
             let choice = match forced {
                 Some((true, _, _)) => 6,
                 Some((false, _, _)) => 2,
-                None => rng.below(9),
+                None => rng.below(10),
             };
+            if choice == 9 {
+                // a heartbeat (it prunes approvals that have run out: a keysend a minute after it was approved,
+                // an invoice a day after its expiry), sometimes after a pause that lets some run out; what
+                // was counted stays counted.  The node entry is written iff something was pruned.
+                let gap = *rng.pick(&[0u64, 61, 61, 3_700, 90_000]);
+                now += gap;
+                world.clock.set(Duration::from_secs(now));
+                let before = store_dump(&world.persister);
+                let _ = node.get_heartbeat();
+                let wrote = before != store_dump(&world.persister);
+                n_heartbeat += 1;
+                jops.push(json!(["heartbeat", now, wrote]));
+                if wrote {
+                    // right after approvals were pruned: requests that fit only if the pruning gave budget back
+                    if plan.is_empty() && p_limit >= 4 {
+                        plan.push_back((false, 0, p_limit / 2 + 1));
+                        plan.push_back((false, 1, p_limit / 2 + 1));
+                    }
+                    n_heartbeat_pruned += 1;
+                    let (pm, fm, pd, fd) = snapshot(&node);
+                    p_ops.push("Persist".to_string());
+                    p_obs.push(format!("(false, {}, {})", vc_obs(&pm), vc_obs(&pd)));
+                    f_ops.push("Persist".to_string());
+                    f_obs.push(format!("(false, {}, {})", vc_obs(&fm), vc_obs(&fd)));
+                }
+                continue;
+            }
             if choice < 2 {
                 node = world.restart(&node_id);
                 n_restart += 1;
@@ -397,7 +425,7 @@ pub fn node(args: &Args) {
                    "coq_pay": coq_p, "coq_fee": coq_f}),
         );
     }
-    emit("STATS", json!({"kind": "node", "pay_approved": n_ok, "pay_refused": n_ref, "fee_approved": n_fee_ok,
+    emit("STATS", json!({"kind": "node", "heartbeats": n_heartbeat, "heartbeats_that_pruned": n_heartbeat_pruned, "pay_approved": n_ok, "pay_refused": n_ref, "fee_approved": n_fee_ok,
         "fee_refused": n_fee_ref, "restarts": n_restart, "monitor_failures": monitor_failures}));
 }
 
